@@ -142,6 +142,8 @@ func sprintfArgs(c *ssa.Call) string {
 }
 
 func checkC11(p *load.Program, r *kit.Report) {
+	importRules(p, r, "C09", "a loaded repository holds less in memory than the original: ranges and heights are then served from the files, which must be read only where memory has no answer and at the record the writer put there", 4, nil, "LOOKUP-SHAPE")
+	importRules(p, r, "C09", "a loaded repository holds less in memory than the original: ranges and heights are then served from the files, which must be read only where memory has no answer and only up to the tip", 6, nil, "TIP-BOUND")
 	r.NotDecided = "equality of the loaded repository with the saved one for a given history (a runtime relation over values); which side branches share a file; migration of real version-0 files. Decided are layout symmetry, key agreement, record-size constants, load-time labels, merge arithmetic and always-write facts that are necessary for the round trip."
 	r.Rule("CODEC-SYM", "encoder and decoder of each persisted structure emit/consume the same ordered list of wire items (kind, width, loop): Branch, HeaderData (+ 32-byte big-int), invalid list, branch index, main header files", 6)
 	r.Rule("KEY-AGREE", "every storage key written has a reader with the same key shape (format and argument kinds)", 4)
